@@ -699,7 +699,7 @@ wait:
 					continue
 				}
 				callers++
-				if parkedState(g.State) {
+				if parkedG(g) {
 					parked++
 					if strings.Contains(g.Frames, "main.c15Draw") && isVegetaG(g) {
 						inTargeter++
